@@ -190,11 +190,14 @@ func formatEventsParseError(path string, lineNo int, line []byte, cause error) e
 }
 
 func appendEvents(path string, events []Event) error {
-	file, err := os.OpenFile(path, os.O_APPEND|os.O_CREATE|os.O_WRONLY, 0644)
+	file, err := os.OpenFile(path, os.O_APPEND|os.O_CREATE|os.O_RDWR, 0644)
 	if err != nil {
 		return err
 	}
 	defer file.Close()
+	if err := repairTornTail(file); err != nil {
+		return err
+	}
 	// Encode every line first and hand them to the kernel in one write: a process killed
 	// between two writes would otherwise leave a command half recorded (e.g. claimed but todo).
 	var buf []byte
@@ -207,6 +210,53 @@ func appendEvents(path string, events []Event) error {
 		buf = append(buf, '\n')
 	}
 	return writeAll(file, buf)
+}
+
+// repairTornTail makes sure the log ends in '\n' before more lines are appended.
+// A final line without a newline is what a killed writer leaves behind. readEvents ignores
+// it when it does not parse, but gluing the next event onto it would make that line
+// invalid for good and every later command would fail. Called with the lock held.
+func repairTornTail(file *os.File) error {
+	info, err := file.Stat()
+	if err != nil {
+		return err
+	}
+	size := info.Size()
+	if size == 0 {
+		return nil
+	}
+	// Collect the bytes after the last newline, reading backwards in chunks.
+	const chunk = 64 * 1024
+	var tail []byte
+	lastNL := int64(-1)
+	for end := size; end > 0 && lastNL < 0; {
+		start := end - chunk
+		if start < 0 {
+			start = 0
+		}
+		buf := make([]byte, end-start)
+		if _, err := file.ReadAt(buf, start); err != nil {
+			return err
+		}
+		if end == size && buf[len(buf)-1] == '\n' {
+			return nil
+		}
+		if i := bytes.LastIndexByte(buf, '\n'); i >= 0 {
+			lastNL = start + int64(i)
+			tail = append(append([]byte(nil), buf[i+1:]...), tail...)
+		} else {
+			tail = append(buf, tail...)
+		}
+		end = start
+	}
+	var event Event
+	if json.Unmarshal(bytes.TrimSpace(tail), &event) == nil {
+		// A complete event that only lacks its newline: keep it.
+		_, err := file.Write([]byte{'\n'})
+		return err
+	}
+	// A fragment of an interrupted write: it was never acknowledged; drop it.
+	return file.Truncate(lastNL + 1)
 }
 
 func writeEventsFile(path string, events []Event) error {
